@@ -49,6 +49,12 @@ func (f *Mapl) Call(s *slip.Scope, args slip.List, depth int) (result slip.Objec
 	fn := args[pos]
 	d2 := depth + 1
 	caller := ResolveToCaller(s, fn, d2)
+	// nil is the empty list, nothing to map over; the first list is returned.
+	for i := 1; i < len(args); i++ {
+		if args[i] == nil {
+			return args[1]
+		}
+	}
 
 	pos++
 	list, ok := args[pos].(slip.List)
